@@ -35,6 +35,18 @@ def gen_cases(tier, seed):
             c['I0'] = None
             c['R0'] = []
             c.pop('R0_explicit_empty', None)
+        g0 = c['graph']
+        if sim in ('Gillespie_SIS', 'Gillespie_SIR', 'fast_SIS', 'fast_SIR') and not g0.get('directed') and not g0.get('big') and g0['n'] >= 2 and r.random() < 0.2:
+            # self-loops (nx.Graph(nx.configuration_model(...)) keeps them; the library's own examples run on such graphs): a node is not its
+            # own contact, trajectories stay well-formed
+            g0 = dict(g0)
+            loops = [[i, i] for i in r.sample(range(g0['n']), r.randint(1, 2))]
+            g0['edges'] = [list(e) for e in g0['edges']] + loops
+            if g0.get('ew'):
+                g0['ew'] = {a_: list(ws) + [1.0] * len(loops) for a_, ws in g0['ew'].items()}
+            c['graph'] = g0
+            c.pop('prehistory', None)
+            c['selfloops'] = True
         if sim == 'Gillespie_simple_contagion' and r.random() < 0.15:
             c['alias'] = 'Gillespie_Arbitrary'      # the older public name of the same simulator
         if sim == 'Gillespie_simple_contagion' and r.random() < 0.3 and not c['full']:
